@@ -39,6 +39,17 @@ fn mutate_ctx(rng: &mut Rng64, c: &[u8], hmac: bool) -> Vec<u8> {
     v
 }
 
+/// An identifier different from `id` that a truncating conversion would map back to `id`.
+fn alias_id(rng: &mut Rng64, id: usize) -> usize {
+    match rng.below(5) {
+        0 => id + 256,
+        1 => id + 256 * (2 + rng.usize_below(200)),
+        2 => id + (1 << 16),
+        3 => id.wrapping_add(1usize << 32),
+        _ => id.wrapping_add(usize::MAX - 255), // == id - 256 mod 2^64, i.e. id + k*256
+    }
+}
+
 fn mutate_arr<const N: usize>(rng: &mut Rng64, a: &[u8; N]) -> [u8; N] {
     let mut b = *a;
     match rng.below(3) {
@@ -72,6 +83,9 @@ enum Mis {
     KeyOne,
     /// two helper shares are processed under each other's identifier (>= 3 aggregators)
     HelperIdsSwapped,
+    /// one aggregator processes its own share under an identifier that is NOT its own but is congruent to
+    /// it modulo 256 (or modulo 2^16 / 2^32): identifiers are not bytes
+    IdAlias,
     /// aggregators run an instance with another algorithm identifier
     AlgId,
     /// aggregators run an instance with another number of proofs
@@ -175,6 +189,7 @@ impl Prio3Visitor for V18<'_> {
         if n >= 3 {
             kinds.push(Mis::HelperIdsSwapped);
         }
+        kinds.push(Mis::IdAlias);
         // single mismatches and pairs
         let mut combos: Vec<Vec<Mis>> = kinds.iter().map(|k| vec![*k]).collect();
         for _ in 0..3 {
@@ -218,6 +233,10 @@ impl Prio3Visitor for V18<'_> {
                             b = if a == 1 { 2 } else { 1 };
                         }
                         ids.swap(a, b);
+                    }
+                    Mis::IdAlias => {
+                        let i = rng.usize_below(n);
+                        ids[i] = alias_id(rng, ids[i]);
                     }
                     _ => {}
                 }
@@ -431,6 +450,184 @@ fn poplar(ctx: &mut Ctx) {
     }
 }
 
+
+// ---------------------------------------------------------------------------------------------
+// Other XOF instantiation: Prio3 over XofFixedKeyAes128 with 16-byte seeds
+// ---------------------------------------------------------------------------------------------
+
+/// The binding matrix for an arbitrary Prio3 instantiation (any XOF / seed size), driven through the public
+/// `Client` / `Aggregator` traits only. `jr` = the type uses joint randomness.
+fn binding_matrix<V, const S: usize>(ctx: &mut Ctx, rng: &mut Rng64, name: &str, vdaf: &V, meas: &V::Measurement, jr: bool, n: usize)
+where
+    V: Aggregator<S, 16, AggregationParam = ()> + Client<16>,
+    V::OutputShare: Encode,
+{
+    let vctx: Vec<u8> = match rng.below(3) {
+        0 => vec![],
+        1 => b"c18 task".to_vec(),
+        _ => {
+            let l = 1 + rng.usize_below(40);
+            rng.bytes(l)
+        }
+    };
+    let key: [u8; S] = rng.array();
+    let nonce: [u8; 16] = rng.array_edge();
+    let Ok(Ok((ps, shares))) = catch(|| vdaf.shard(&vctx, meas, &nonce)) else {
+        ctx.inconclusive(format!("honest shard failed for {name}"));
+        return;
+    };
+    let psb = ps.get_encoded().unwrap();
+    let isb: Vec<Vec<u8>> = shares.iter().map(|s| s.get_encoded().unwrap()).collect();
+    let mut st = WireStats::default();
+    let mut an = None;
+    let honest = verify_report_simple::<V, S>(vdaf, &key, &vctx, &(), &nonce, &psb, &isb, &mut no_tamper, &mut st, &mut an);
+    ctx.eval();
+    let honest_out: Vec<Vec<u8>> = match honest {
+        Outcome::Finished(o) => o.iter().map(|x| x.get_encoded().unwrap()).collect(),
+        other => {
+            ctx.inconclusive(format!("positive control failed ({}) for {name}", other.stage()));
+            return;
+        }
+    };
+    ctx.count("other_xof_positive_controls");
+    ctx.nontrivial(digest_str(&format!("other-xof|{name}|{n}")));
+    let mut kinds = vec!["CtxAll", "CtxOne", "NonceAll", "NonceOne", "KeyOne", "IdAlias"];
+    if n >= 3 {
+        kinds.push("HelperIdsSwapped");
+    }
+    for mis in kinds {
+        let mut ctxs: Vec<Vec<u8>> = vec![vctx.clone(); n];
+        let mut nonces: Vec<[u8; 16]> = vec![nonce; n];
+        let mut keys: Vec<[u8; S]> = vec![key; n];
+        let mut ids: Vec<usize> = (0..n).collect();
+        match mis {
+            "CtxAll" => {
+                let c = mutate_ctx(rng, &vctx, false);
+                ctxs = vec![c; n];
+            }
+            "CtxOne" => {
+                let i = rng.usize_below(n);
+                ctxs[i] = mutate_ctx(rng, &vctx, false);
+            }
+            "NonceAll" => {
+                let nn = mutate_arr(rng, &nonce);
+                nonces = vec![nn; n];
+            }
+            "NonceOne" => {
+                let i = rng.usize_below(n);
+                nonces[i] = mutate_arr(rng, &nonce);
+            }
+            "KeyOne" => {
+                let i = rng.usize_below(n);
+                keys[i] = mutate_arr(rng, &key);
+            }
+            "IdAlias" => {
+                let i = rng.usize_below(n);
+                ids[i] = alias_id(rng, i);
+            }
+            _ => ids.swap(1, 2),
+        }
+        let run = |keys: &Vec<[u8; S]>| {
+            let kr: Vec<&[u8; S]> = keys.iter().collect();
+            let cr: Vec<&[u8]> = ctxs.iter().map(|c| c.as_slice()).collect();
+            let nr: Vec<&[u8; 16]> = nonces.iter().collect();
+            let mut st = WireStats::default();
+            let mut an = None;
+            verify_report::<V, S>(vdaf, &kr, &cr, &(), &nr, &ids, &psb, &isb, &mut no_tamper, &mut st, &mut an)
+        };
+        ctx.eval();
+        let o = run(&keys);
+        if mis == "NonceAll" && !jr {
+            match o {
+                Outcome::Finished(outs) => {
+                    let ob: Vec<Vec<u8>> = outs.iter().map(|x| x.get_encoded().unwrap()).collect();
+                    if ob != honest_out {
+                        ctx.violation(format!("{name}|nonce-exception-output-changed"), "consistent nonce substitution (no joint randomness) changed the output shares", json!({"instance": name}));
+                    } else {
+                        ctx.count("nonce_exception_unchanged_outputs");
+                    }
+                }
+                other => ctx.violation(format!("{name}|nonce-exception-rejected"), "consistent nonce substitution for a type without joint randomness did not produce the honest output shares",
+                    json!({"instance": name, "stage": other.stage()})),
+            }
+            continue;
+        }
+        match o {
+            Outcome::Finished(_) => {
+                let mut acc = 1;
+                for _ in 0..3 {
+                    let base: [u8; S] = rng.array();
+                    let ks: Vec<[u8; S]> = keys.iter().map(|kk| if *kk == key { base } else { mutate_arr(rng, &base) }).collect();
+                    ctx.eval();
+                    if run(&ks).finished() {
+                        acc += 1;
+                    } else {
+                        break;
+                    }
+                }
+                let wit = json!({"instance": name, "aggregators": n, "mismatch": mis, "accepted_of_4": acc, "nonce": hex(&nonce), "ctx": hex_trunc(&vctx, 48), "ids": ids});
+                if acc == 4 {
+                    ctx.violation(format!("{name}|accepted-under-mismatch|{mis}"), "verification completed at all aggregators under a binding mismatch (4 independent keys)", wit);
+                } else {
+                    ctx.sporadic(64, format!("{name}|accepted-under-mismatch|{mis}"), wit);
+                }
+            }
+            other => {
+                ctx.count(&format!("other_xof_mismatch_rejected_{mis}"));
+                ctx.count(&format!("rejected_{}", other.stage()));
+            }
+        }
+    }
+}
+
+/// Prio3 instantiated over the crate's other XOF with a different seed size: `XofFixedKeyAes128`, 16-byte seeds
+/// and verification keys (the binder of its `Xof` implementation is fed in many `update` calls: aggregator id,
+/// nonce, then one per share element).
+fn other_xof(ctx: &mut Ctx) {
+    use prio::field::{Field128, Field64};
+    use prio::flp::gadgets::{Mul, ParallelSum};
+    use prio::flp::types::{Count, Histogram, Sum, SumVec};
+    use prio::vdaf::xof::XofFixedKeyAes128;
+    let mut rng = ctx.rng("c18-other-xof");
+    let rounds = ctx.budget(640, 16_000) / ctx.nshards as u64;
+    for i in 0..rounds {
+        let n = 2 + (i % 3) as usize;
+        let proofs = 1 + ((i / 3) % 2) as u8;
+        match i % 4 {
+            0 => {
+                let len = 2 + rng.usize_below(12);
+                let chunk = 1 + rng.usize_below(len);
+                let Ok(t) = Histogram::<Field128, ParallelSum<Field128, Mul>>::new(len, chunk) else { continue };
+                let Ok(v) = Prio3::<_, XofFixedKeyAes128, 16>::new(n as u8, proofs, 0xFFFF_1001, t) else { continue };
+                let m = rng.usize_below(len);
+                binding_matrix::<_, 16>(ctx, &mut rng, "FixedKeyAes128/Histogram", &v, &m, true, n);
+            }
+            1 => {
+                let len = 1 + rng.usize_below(10);
+                let bits = 1 + rng.usize_below(6);
+                let max = (1u128 << bits) - 1;
+                let chunk = 1 + rng.usize_below(len * bits);
+                let Ok(t) = SumVec::<Field128, ParallelSum<Field128, Mul>>::new(max, len, chunk) else { continue };
+                let Ok(v) = Prio3::<_, XofFixedKeyAes128, 16>::new(n as u8, proofs, 0xFFFF_1002, t) else { continue };
+                let m: Vec<u128> = (0..len).map(|_| rng.u128() % (max + 1)).collect();
+                binding_matrix::<_, 16>(ctx, &mut rng, "FixedKeyAes128/SumVec", &v, &m, true, n);
+            }
+            2 => {
+                let Ok(v) = Prio3::<_, XofFixedKeyAes128, 16>::new(n as u8, proofs, 0xFFFF_1003, Count::<Field64>::new()) else { continue };
+                let m = rng.bool();
+                binding_matrix::<_, 16>(ctx, &mut rng, "FixedKeyAes128/Count", &v, &m, false, n);
+            }
+            _ => {
+                let max = 1 + rng.u64() % 1000;
+                let Ok(t) = Sum::<Field64>::new(max) else { continue };
+                let Ok(v) = Prio3::<_, XofFixedKeyAes128, 16>::new(n as u8, proofs, 0xFFFF_1004, t) else { continue };
+                let m = rng.u64() % (max + 1);
+                binding_matrix::<_, 16>(ctx, &mut rng, "FixedKeyAes128/Sum", &v, &m, false, n);
+            }
+        }
+    }
+}
+
 pub fn run(ctx: &mut Ctx) {
     let mut rng = ctx.rng("c18");
     let n_cfg = ctx.budget(16_000, 160_000) / ctx.nshards as u64;
@@ -452,4 +649,5 @@ pub fn run(ctx: &mut Ctx) {
         }
     }
     poplar(ctx);
+    other_xof(ctx);
 }
